@@ -3,7 +3,7 @@
 //
 //   run <id> <nsolve> <nsys>
 //   solve <mode> <reset> <mxsteps> <dt> <ny0> <y0...>            (all variants)
-//         cvode : <nout> (<flag> <frac>)* <nre> (<k> <flag>)* <setup_idx> <setup_flag>
+//         cvode : <nout> (<flag> <frac>)* <nre> (<k> <flag>)* <setup_idx> <setup_flag> <tail_on> <tail_flag> <tail_frac>
 //         odeint: <nsteps> <shape> <throw_at> <throw_kind>
 //
 // Numbers that must be exact (dt, y0, frac) are C hex floats.
@@ -222,6 +222,12 @@ int main(int argc, char **argv) {
         g_mock.setup_fail_idx = atoi(tok);
         TOK();
         g_mock.setup_fail_flag = atoi(tok);
+        TOK();
+        g_mock.tail_on = atoi(tok);
+        TOK();
+        g_mock.tail.flag = atoi(tok);
+        TOK();
+        g_mock.tail.frac = strtod(tok, NULL);
 #endif
         if (do_reset || solve_idx == 0) {
             // mxsteps is fixed by Init/Reset; first solve always (re)sets it
